@@ -26,10 +26,12 @@ def parse(log):
                 out[cur]['checks'][m.group(1)] = {'exit': int(m.group(2)), 'violation_signatures': int(m.group(3)), 'clauses': clauses}
     return out
 
-def main(logs, srcroot='/tmp'):
+def main(logs, srcroot='/tmp', rename=None):
     for log in logs:
         for sid, r in parse(log).items():
             P, v = sid[:3], sid[3]
+            if rename:
+                sid = P + rename[v]
             src = os.path.join(srcroot, 'wt_' + P, '_out')
             dst = os.path.join('/verif/seeded', sid)
             os.makedirs(dst, exist_ok=True)
@@ -55,4 +57,7 @@ def main(logs, srcroot='/tmp'):
             print(sid, 'tests:', r['tests'], 'demo', r['demo_with'], r['demo_without'], 'caught_by', caught)
 
 if __name__ == '__main__':
-    main(sys.argv[1:])
+    if sys.argv[1] == '--wave3':
+        main(sys.argv[2:], rename={'A': 'C', 'B': 'D'})
+    else:
+        main(sys.argv[1:])
